@@ -48,6 +48,9 @@ BASE_POOL = [
     ('int', -2), ('int', 0), ('int', 1), ('int', 5), ('int', 12),
     ('int', 44000), ('float', -0.5), ('float', 0.0), ('float', -0.0),
     ('float', 1.0), ('float', 2.5), ('float', 1e10),
+    ('float', 0.1 + 0.2), ('float', 0.3), ('float', 1.0000000000000002),
+    ('float', 1e-13), ('float', 1e15), ('float', 1e15 + 0.5),
+    ('float', 5e-324),
     ('date', D1), ('date', D2),
     ('text', ''), ('text', '1'), ('text', '5'), ('text', '12'),
     ('text', 'true'), ('text', 'TRUE'), ('text', 'False'), ('text', 'abc'),
